@@ -10,6 +10,7 @@ from __future__ import annotations
 
 import copy
 import json
+import os
 import random
 
 from . import common as C
@@ -279,6 +280,12 @@ def run(tier: str, seed: int) -> int:
                              {"document": md, "passages": names, "tag": tag})
         else:
             chk.disagree("valid_doc-coqc", "a case shard failed to evaluate", {"log": log[-1500:]})
+    # ---- "after a JSON round trip": real save documents and compiled stories as TEXT against Codec/JsonText.v ----
+    from . import jsontext_tie
+    stats["json_text"] = jsontext_tie.phase(chk, random.Random(rng.randrange(10 ** 9)), 20 if tier == "quick" else 200,
+                                            docs=True, texts=False)
+    # ---- continuation with OBJECTS in the variables ----
+    stats["object_continuations"] = object_continuation_phase(chk, rng, 12 if tier == "quick" else 120)
     chk.cov["programs"] = stats["save_points"]
     chk.cov["disagreements_checked"] = len(vterms)
     chk.cov["rule"] = ("save points = the state after a random history on a generated story (hooks, @join, parameters, chains, "
@@ -292,6 +299,140 @@ def run(tier: str, seed: int) -> int:
                        "timestamps and story metadata fields of the document are not compared"]
     return chk.finish(props, C.BASE_TRUST + ["modelled: save_state/load_state (Engine/SaveLoad.v) over the value codec (Codec/Codec.v)"],
                       "make -C /verif/coq && coqc -Q /verif/coq Bardic /verif/coq/Props/C05.v")
+
+
+OBJ_MODULE = '''
+import dataclasses
+
+
+class Pack:
+    def __init__(self, owner):
+        self.owner = owner
+        self.things = []
+
+    def put(self, x):
+        self.things.append(x)
+        return len(self.things)
+
+
+class Deck:
+    class Card:
+        def __init__(self, rank):
+            self.rank = rank
+
+        def up(self):
+            self.rank += 1
+            return self.rank
+
+
+Card = Deck.Card
+
+
+@dataclasses.dataclass(frozen=True)
+class Coin:
+    face: str
+    worth: int
+
+    def twice(self):
+        return self.worth * 2
+
+
+class Sealed:
+    _fields = ("tag", "n")
+
+    def __init__(self, tag, n):
+        self.tag = tag
+        self.n = n
+
+    def __setattr__(self, k, v):
+        if k not in self._fields:
+            raise AttributeError(k)
+        object.__setattr__(self, k, v)
+
+    def bump(self):
+        self.n = self.n + 1
+        return self.n
+'''
+
+
+def object_continuation_phase(chk, rng, n):
+    """Saved games whose variables hold instances of imported classes of several flavours (plain, nested class imported
+    under its short name, frozen dataclass, guarded __setattr__, stdlib Wallet/Inventory), also inside lists and other
+    objects: after save -> JSON text -> load into a fresh engine the SAME continuation must show the same text, choices
+    and variables as the original session (the objects' methods are called by the continuation)."""
+    import importlib
+    import shutil
+    import sys
+    import tempfile
+    tmp = tempfile.mkdtemp(prefix="bardic_verif_c05_")
+    modname = "c05objs"
+    with open(os.path.join(tmp, modname + ".py"), "w") as f:
+        f.write(OBJ_MODULE)
+    sys.path.insert(0, tmp)
+    stats = {"stories": 0, "compared_steps": 0}
+    try:
+        importlib.invalidate_caches()
+        cls = R.engine_class()
+        for k in range(n):
+            r = random.Random(rng.randrange(10 ** 9))
+            mk = {"pack": "Pack('ann')", "card": f"Card({r.randint(1, 9)})", "coin": f"Coin('h', {r.randint(1, 9)})",
+                  "sealed": f"Sealed('t', {r.randint(0, 5)})", "wallet": f"Wallet({r.randint(0, 50)})", "inv": "Inventory(20)"}
+            use = {"pack": "{pack.put(1)} {len(pack.things)} {pack.owner}", "card": "{card.up()} {card.rank}",
+                   "coin": "{coin.twice()} {coin.face}", "sealed": "{sealed.bump()} {sealed.tag}",
+                   "wallet": "{wallet.spend(3)} {wallet.gold}", "inv": "{inv.add({'name': 'Rope', 'weight': 1})} {inv.current_weight}"}
+            kinds = r.sample(sorted(mk), r.randint(2, 5))
+            holder = r.choice(["", "list", "attr"])
+            lines = [f"from {modname} import Pack, Card, Coin, Sealed", "from bardic.stdlib.economy import Wallet",
+                     "from bardic.stdlib.inventory import Inventory", "", ":: Start"]
+            lines += [f"~ {kd} = {mk[kd]}" for kd in kinds]
+            if holder == "list":
+                lines.append(f"~ shelf = [{kinds[0]}, [{kinds[1]}]]")
+            elif holder == "attr":
+                lines += ["~ crate = Pack('crate')", f"~ crate.things = [{kinds[0]}]", f"~ crate.owner = {kinds[1]}"]
+            lines += ["Start.", "+ [Go] -> Camp", "", ":: Camp"] + ["Camp " + kd + " " + use[kd] for kd in kinds]
+            if holder == "list":
+                lines.append("Shelf {type(shelf[0]).__name__} {type(shelf[1][0]).__name__}")
+            elif holder == "attr":
+                lines.append("Crate {type(crate.things[0]).__name__} {type(crate.owner).__name__}")
+            lines += ["+ [Again] -> Camp", "+ [Back] -> Start2", "", ":: Start2", "Back.", "+ [Go] -> Camp"]
+            src = "\n".join(lines)
+            pre = [("choose", 0)] * r.randint(0, 2)
+            post = [("choose", r.choice([0, 0, 1])) for _ in range(r.randint(2, 4))]
+            with C.quiet():
+                try:
+                    story = R.compile_story(src)
+                    e1 = cls(copy.deepcopy(story))
+                    for op in pre:
+                        e1.choose(op[1])
+                    doc = json.loads(json.dumps(e1.save_state()))
+                    e2 = cls(copy.deepcopy(story))
+                    e2.load_state(doc)
+                except Exception as ex:  # noqa
+                    chk.report("object-save-load-raised", f"saving / loading a game holding {kinds} raised {type(ex).__name__}",
+                               {"story_source": src, "ops_before_save": pre, "exception": repr(ex)[:300]})
+                    continue
+                stats["stories"] += 1
+                for j, op in enumerate(post):
+                    outs = []
+                    for e in (e1, e2):
+                        try:
+                            o = e.choose(op[1] % max(1, len(e.current().choices)))
+                            outs.append(("ok", o.content, [c["text"] for c in o.choices]))
+                        except Exception as ex:  # noqa
+                            outs.append(("exc", type(ex).__name__))
+                    stats["compared_steps"] += 1
+                    if outs[0] != outs[1]:
+                        chk.report("continuation-differs:objects",
+                                   f"after save -> JSON -> load the continuation differs at step {j} for a game holding {kinds} "
+                                   f"({holder or 'in variables'}): original {str(outs[0])[:200]!r}, loaded {str(outs[1])[:200]!r}",
+                                   {"story_source": src, "ops_before_save": pre, "continuation": post[:j + 1]})
+                        break
+            chk.count(("objcont", src), True)
+    finally:
+        sys.path.remove(tmp)
+        sys.modules.pop(modname, None)
+        shutil.rmtree(tmp, ignore_errors=True)
+    return stats
 
 
 def continue_history(eng, story, ops):
